@@ -12,7 +12,7 @@ for ty, ctor in [("SMB_STRING","var v SMB_STRING"),("OEM_STRING","v := NewOEM_ST
                  ("SMB_DIRECTORY_INFORMATION","v := NewSMB_DIRECTORY_INFORMATION()"),("SMB_FILE_ATTRIBUTES","var v SMB_FILE_ATTRIBUTES"),
                  ("SMB_NMPIPE_STATUS","var v SMB_NMPIPE_STATUS"),("SMB_RESUME_KEY","v := NewSMB_RESUME_KEY()"),
                  ("LOCKING_ANDX_RANGE32","var v LOCKING_ANDX_RANGE32"),("LOCKING_ANDX_RANGE64","var v LOCKING_ANDX_RANGE64"),("FILETIME","var v FILETIME")]:
-    add(T,"types",ty,f"{ctor}\n\tv.Unmarshal(data)",["0..12"],["0..40"])
+    add(T,"types",ty,f"{ctor}\n\tv.Unmarshal(data)",["0..12"]+(["43","44","53"] if ty=="SMB_DIRECTORY_INFORMATION" else []),["0..40"]+(["43..54"] if ty=="SMB_DIRECTORY_INFORMATION" else []))
 
 M="network/smb/smb_v10/message"
 add(M+"/data","data","Data","d := NewData()\n\td.Unmarshal(data)",["0..10"],["0..40"])
@@ -50,7 +50,8 @@ N="network/netbios/nbtns"
 add(N,"nbtns","NBTNSPacket","p := &NBTNSPacket{}\n\tp.Unmarshal(data)",["0..16","50"],["0..60"],lossy_fmt=True)
 addS(N,"nbtns","FirstLevelDecode","FirstLevelDecode(data)",["0..6","32","33","35"],["0..40"],lossy_fmt=True)
 NT="network/smb/smb_v10/spnego/ntlm"
-add(NT,"ntlm","ParseChallengeMessage","ParseChallengeMessage(data)",["0..12","32","48","55"],["0..60"],lossy_fmt=True)
+add(NT,"ntlm","ParseChallengeMessage","ParseChallengeMessage(data)",["0..12","55","56","58","64"],["0..72"],lossy_fmt=True,conc_sample=3,
+    bounds="arbitrary byte strings of each length n in the grid (the parser's minimum is 56); after each symbolic slice bound at most 3 values are followed (the bound obligations themselves are decided for all values)")
 add(NT,"ntlm","ParseTargetInfo","ParseTargetInfo(data)",["0..10"],["0..20"],lossy_fmt=True)
 K="windows/keycredential"
 add(K,"keycredentiallink","KeyCredential_FromBytes","kc := &KeyCredential{}\n\tkc.FromBytes(data)",["0..12"],["0..28"],lossy_fmt=True)
